@@ -70,6 +70,15 @@ static sexp_uint_t hash_one (sexp ctx, sexp obj, sexp_uint_t bound, sexp_sint_t 
         if (sexp_bytesp(obj) || sexp_uvectorp(obj) || sexp_bignump(obj)) {
           p_right = ((char*)p + sexp_type_num_slots_of_object(t, obj)*sizeof(sexp));
           right_size = ((char*)obj + sexp_type_size_of_object(t, obj)) - p_right;
+#if SEXP_USE_BIGNUMS
+          /* equal? ignores unused high digits, so hash only the sign and */
+          /* the significant digits, not the allocated length */
+          if (sexp_bignump(obj)) {
+            acc *= FNV_PRIME; acc ^= sexp_bignum_sign(obj);
+            p_right = (char*)sexp_bignum_data(obj);
+            right_size = sexp_bignum_hi(obj)*sizeof(sexp_uint_t);
+          }
+#endif
           for (i=0; i<right_size; i++) {acc *= FNV_PRIME; acc ^= p_right[i];}
         }
         /* hash eq-object slots */
